@@ -92,7 +92,7 @@ fn generate(seed: u64, tier: Tier, em: &mut Emitter) {
     }
     // value-only blocks (mostly inside the known-finding class; the rest must agree exactly)
     let mut rng = seed_mix(seed, 0xC02_0001);
-    for _ in 0..(if tier == Tier::Quick { 80 } else { 800 }) {
+    for _ in 0..(if tier == Tier::Quick { 80 } else { 400 }) {
         let n = gen_len(&mut rng);
         let src = Src::Vec(Shape::KV, pattern_kv(*rng.pick(&PATTERNS), n, &mut rng));
         let steps = gen_value_only_block(&mut rng);
